@@ -8,6 +8,13 @@ use quick_xml::name::QName;
 use std::borrow::Cow;
 use std::io;
 
+/// Checks if the given string consists only of characters which can be represented in XML 1.0.
+pub(super) fn is_xml_representable(s: &str) -> bool {
+    s.chars().all(|c| {
+        matches!(c, '\t' | '\n' | '\r' | '\u{20}'..='\u{d7ff}' | '\u{e000}'..='\u{fffd}' | '\u{10000}'..)
+    })
+}
+
 /// Creates text content which will be read back as the given `content`.
 ///
 /// In addition to the markup characters, CR has to be written as character reference.
